@@ -6,6 +6,7 @@ package main
 
 import (
 	"bytes"
+	"encoding/json"
 	"fmt"
 	"math/rand"
 	"os"
@@ -30,17 +31,39 @@ func parseDoc(doc map[string]any, env map[string]string) (cfg nfpm.Config, y str
 	return cfg, y, err
 }
 
-// parseDocFile gives the same document to the file entry point (nfpm.ParseFileWithEnvMapping): accepted?, same Config as cfg?
-func parseDocFile(dir, y string, env map[string]string, cfg nfpm.Config, readerErr error) (bool, bool) {
-	p := filepath.Join(dir, "probe.yaml")
-	if os.WriteFile(p, []byte(y), 0o644) != nil {
-		return false, false
+// parseDocFile gives the same document to the file entry point (nfpm.ParseFileWithEnvMapping), once as the YAML text in a
+// .yaml file and once rendered as JSON (which is YAML) in a .json file: accepted by all? by any? same Config as cfg?
+func parseDocFile(dir string, doc map[string]any, y string, env map[string]string, cfg nfpm.Config, readerErr error) (all, any, same bool) {
+	all, same = true, true
+	js, jerr := json.Marshal(toJSONable(doc))
+	for _, v := range []struct {
+		name string
+		text []byte
+	}{{"probe.yaml", []byte(y)}, {"probe.json", js}} {
+		if v.name == "probe.json" && jerr != nil {
+			continue
+		}
+		p := filepath.Join(dir, v.name)
+		if os.WriteFile(p, v.text, 0o644) != nil {
+			return false, false, false
+		}
+		c2, err := func() (c nfpm.Config, err error) {
+			defer func() {
+				if r := recover(); r != nil {
+					err = fmt.Errorf("PANIC in the parser: %v", r)
+				}
+			}()
+			return nfpm.ParseFileWithEnvMapping(p, func(k string) string { return env[k] })
+		}()
+		if err != nil {
+			all = false
+			same = same && readerErr != nil
+			continue
+		}
+		any = true
+		same = same && readerErr == nil && len(snapDiff(snapshot(&cfg), snapshot(&c2))) == 0 && len(snapDiff(snapshot(&c2), snapshot(&cfg))) == 0
 	}
-	c2, err := nfpm.ParseFileWithEnvMapping(p, func(k string) string { return env[k] })
-	if err != nil {
-		return false, readerErr != nil
-	}
-	return true, readerErr == nil && len(snapDiff(snapshot(&cfg), snapshot(&c2))) == 0 && len(snapDiff(snapshot(&c2), snapshot(&cfg))) == 0
+	return
 }
 
 func envM(env map[string]string) []M {
@@ -354,26 +377,35 @@ func famGet(tr *Trace, id *int) int {
 	}
 	// validation rejects an override block for a format that has no registered packager
 	for _, of := range []string{"deb", "rpm", "apk", "archlinux", "ipk", "nope", "debian", "arch", "DEB", "zst", "pkg", "a", "zz", "ipkg", "rp"} {
-		doc := minimalDoc()
-		setPath(doc, []string{"overrides", of, "depends"}, []any{"x"}, "")
-		*id++
-		n++
-		cfg, _, err := parseDoc(doc, nil)
-		msg := ""
-		if err == nil {
-			if verr := cfg.Validate(); verr != nil {
-				msg = safeStr(verr.Error())
+		for _, block := range []string{"set", "null", "empty"} { // a block with a setting, `of:` with nothing below it, `of: {}`
+			doc := minimalDoc()
+			switch block {
+			case "set":
+				setPath(doc, []string{"overrides", of, "depends"}, []any{"x"}, "")
+			case "null":
+				doc["overrides"] = map[string]any{of: rawYAML("")}
+			case "empty":
+				doc["overrides"] = map[string]any{of: map[string]any{}}
 			}
-		} else {
-			msg = "parse: " + safeStr(err.Error())
-		}
-		reg := false
-		for _, f := range allFormats {
-			if f == of {
-				reg = true
+			*id++
+			n++
+			cfg, _, err := parseDoc(doc, nil)
+			msg := ""
+			if err == nil {
+				if verr := cfg.Validate(); verr != nil {
+					msg = safeStr(verr.Error())
+				}
+			} else {
+				msg = "parse: " + safeStr(err.Error())
 			}
+			reg := false
+			for _, f := range allFormats {
+				if f == of {
+					reg = true
+				}
+			}
+			tr.Emit(*id, []M{{"ev": "case", "id": *id, "fam": "validate"}, {"ev": "validate", "ovfmt": of, "block": block, "registered": reg, "err": msg}, {"ev": "endcase"}})
 		}
-		tr.Emit(*id, []M{{"ev": "case", "id": *id, "fam": "validate"}, {"ev": "validate", "ovfmt": of, "registered": reg, "err": msg}, {"ev": "endcase"}})
 	}
 	return n
 }
@@ -799,8 +831,8 @@ func famParse(tr *Trace, id *int) int {
 				if err != nil {
 					msg = safeStr(err.Error())
 				}
-				af, same := parseDocFile(fdir, y, nil, cfg, err)
-				emit(M{"ev": "probe", "kind": "known", "path": strings.ReplaceAll(k.String(), "<fmt>", f), "accepted": err == nil, "err": msg, "accepted_file": af, "file_same": same})
+				afAll, afAny, same := parseDocFile(fdir, doc, y, nil, cfg, err)
+				emit(M{"ev": "probe", "kind": "known", "path": strings.ReplaceAll(k.String(), "<fmt>", f), "accepted": err == nil, "err": msg, "accepted_file_all": afAll, "accepted_file_any": afAny, "file_same": same})
 			}
 			last := k.Segs[len(k.Segs)-1]
 			if last == "[]" || last == "<fmt>" {
@@ -815,8 +847,8 @@ func famParse(tr *Trace, id *int) int {
 				if err != nil {
 					msg = safeStr(err.Error())
 				}
-				af, same := parseDocFile(fdir, y, nil, cfg, err)
-				emit(M{"ev": "probe", "kind": "unknown", "path": strings.ReplaceAll(strings.Join(segs, "."), "<fmt>", f), "accepted": err == nil, "err": msg, "accepted_file": af, "file_same": same})
+				afAll, afAny, same := parseDocFile(fdir, doc, y, nil, cfg, err)
+				emit(M{"ev": "probe", "kind": "unknown", "path": strings.ReplaceAll(strings.Join(segs, "."), "<fmt>", f), "accepted": err == nil, "err": msg, "accepted_file_all": afAll, "accepted_file_any": afAny, "file_same": same})
 			}
 		}
 	}
@@ -849,6 +881,16 @@ func famParse(tr *Trace, id *int) int {
 						setPath(doc, k.Segs, v, f)
 						if inContents && opt != "absent" {
 							setPath(doc, append(append([]string{}, k.Segs[:len(k.Segs)-1]...), "expand"), opt == "true", f)
+						}
+						if r.tag == "brace" && len(env) == 2 {
+							// the same with an empty override block of another format in the document (as the reference configuration
+							// of the documentation has): nothing about the expansion may change
+							ov, _ := doc["overrides"].(map[string]any)
+							if ov == nil {
+								ov = map[string]any{}
+								doc["overrides"] = ov
+							}
+							ov["apk"] = rawYAML("")
 						}
 						cfg, _, err := parseDoc(doc, env)
 						ev := M{"ev": "expand", "path": strings.ReplaceAll(k.String(), "<fmt>", f), "kind": k.Kind, "raw": r.raw, "rawtag": r.tag, "env": envM(env),
